@@ -16,6 +16,7 @@ import sys
 import types
 
 from ..core import Violation, HarnessError, stream, sut, exc_name
+from ..core import deep
 
 ID = "C13"
 UNSET = "<unset>"
@@ -104,7 +105,7 @@ class Prop:
                     listener[n] = c.choice(POLICIES)
         ninst = c.randint(2, 4)
         insts = [c.choice(["base", "sub", "both", "both", "other"]) for _ in range(ninst)]
-        nops = c.choice([8, 16, 30, 60])
+        nops = deep(c, [8, 16, 30, 60], [100, 150])
         focus = c.sample(NAMES, c.randint(3, 8))
         ops = []
         for _ in range(nops):
